@@ -100,7 +100,7 @@ def directed_receiver_cases():
     must be reported as CannotUnmock (never answered by the default body), the strict unmatched call as NoMatchingCallPatterns"""
     from .. import layer_d as D
     out = []
-    for m in [14, 15, 16, 17, 18, 19, 24, 30]:
+    for m in [14, 15, 16, 17, 18, 19, 24, 30, 34]:
         for partial in (False, True):
             for how in ("reject", "unm"):
                 pat = {"matcher": 0 if how == "reject" else 255, "dbg": 1, "ops": [("dfl",)] if how == "reject" else [("unm",)]}
@@ -108,7 +108,8 @@ def directed_receiver_cases():
                          {"kind": "call", "mid": 10, "opener": "each", "pat": {"matcher": 255, "dbg": 2, "ops": [("ret", 2)]}},
                          {"kind": "call", "mid": 11, "opener": "each", "pat": {"matcher": 255, "dbg": 3, "ops": [("ret", 3)]}},
                          {"kind": "call", "mid": 23, "opener": "each", "pat": {"matcher": 255, "dbg": 4, "ops": [("ret", 4)]}},
-                         {"kind": "call", "mid": 29, "opener": "each", "pat": {"matcher": 255, "dbg": 5, "ops": [("ret", 5)]}}]
+                         {"kind": "call", "mid": 29, "opener": "each", "pat": {"matcher": 255, "dbg": 5, "ops": [("ret", 5)]}},
+                         {"kind": "call", "mid": 33, "opener": "each", "pat": {"matcher": 255, "dbg": 6, "ops": [("ret", 6)]}}]
                 evs = [{"base": ("clone", 0)}, {"base": ("call", 1, m, 2)}]
                 if m not in D.CONSUMING:
                     evs.append({"base": ("drop", 1)})
